@@ -50,7 +50,7 @@ Proof.
   unfold msg_deserialize.
   rewrite <- !app_assoc.
   rewrite app_length, LH.
-  cbn [Nat.ltb Nat.leb plus].
+  match goal with |- context [(34 + ?x <? 34)%nat] => replace (34 + x <? 34)%nat with false by (symmetry; apply Nat.ltb_ge; lia) end.
   rewrite (de_ser_header h (body_type b) mlen _ Hh E4 (body_type_ok b) Hm).
   rewrite body_type_ok. cbn [negb].
   replace (mlen <? 34) with false by (unfold mlen; lia).
